@@ -572,6 +572,24 @@ def ma_average(a, axis=None, weights=None, returned=False):
     return (r, MaskedArray(_new(dens, oshape, 'f'), None)) if returned else r
 
 
+def ma_divide(a, b, out=None, **kw):
+    """numpy.ma.divide / true_divide: the DOMAINED division - a zero divisor gives a missing cell, whatever the
+    operands are (masked, plain or scalar)"""
+    if out is not None:
+        raise Inconclusive("numpy.ma.divide with out=")
+    if isinstance(a, MaskedArray):
+        return a._div(a, b)
+    if isinstance(b, MaskedArray):
+        return b._div(a, b)
+    if isinstance(a, ndarray):
+        am = MaskedArray(a, None)
+        return am._div(am, b)
+    if isinstance(b, ndarray):
+        bm = MaskedArray(b, None)
+        return bm._div(a, bm)
+    return a / b
+
+
 def ma_masked_values(x, value, rtol=1e-5, atol=1e-8, copy=True, shrink=True):
     """numpy.ma.masked_values: floating data is compared with isclose(x, value, rtol, atol), integer data exactly;
     the result carries the value as fill value; copy=False shares the data, the mask is a new array"""
@@ -976,7 +994,7 @@ def apply():
     M.shape, M.size, M.ndim = N.shape, N.size, N.ndim
     M.make_mask, M.make_mask_none = ma_make_mask, lambda shape, dtype=None: np_zeros(shape, 'b')
     M.add, M.subtract, M.multiply = N.add, N.subtract, N.multiply
-    M.divide = M.true_divide = N.true_divide
+    M.divide = M.true_divide = ma_divide
     M.negative = np_negative
     M.logical_or, M.logical_and, M.logical_not = N.logical_or, N.logical_and, N.logical_not
     M.isMaskedArray = M.isMA = lambda x: isinstance(x, MaskedArray)
